@@ -178,8 +178,7 @@ def deep_cases(draw):
     elif profile == "uniform-10^6":
         values = S.splitmix(seed, n, 1, 10 ** 6)
     else:
-        base = draw(st.sampled_from([10 ** 6, 2 ** 24, 10 ** 9]))
-        values = [base * m + d for m, d in zip(S.splitmix(seed, n, 1, 4), S.splitmix(seed + 1, n, 0, 50))]
+        values = S.near_equal_large(seed, n, draw(st.sampled_from(S.NEAR_EQUAL_BASES)))
     if draw(st.integers(0, 3)) == 0:
         # many bins, small repeated values: 5-6 bins, 6-8 items from 0..12 with a few distinct values
         k = draw(st.sampled_from([5, 5, 6]))
@@ -209,8 +208,7 @@ def two_way_large_cases(draw):
     elif profile == "uniform-1000":
         values = S.splitmix(seed, n, 1, 1000)
     elif profile == "near-equal-large":
-        base = draw(st.sampled_from([10 ** 6, 2 ** 24]))
-        values = [base * m + d for m, d in zip(S.splitmix(seed, n, 1, 4), S.splitmix(seed + 1, n, 0, 50))]
+        values = S.near_equal_large(seed, n, draw(st.sampled_from([10 ** 6, 2 ** 24, 2 ** 40])))
     else:
         values = list(draw(S.planted_values(2, n, max_sum=500)))[:n]
     case = {"alg": alg, "values": values, "numbins": 2, "pres": "list", "nseed": 0, "profile": "2way-" + profile}
@@ -243,8 +241,7 @@ def nested_cases(draw):
     elif profile == "uniform-10^6":
         values = S.splitmix(seed, 9, 1, 10 ** 6)
     else:
-        base = draw(st.sampled_from([10 ** 6, 2 ** 24, 10 ** 9]))
-        values = [base * m + d for m, d in zip(S.splitmix(seed, 9, 1, 4), S.splitmix(seed + 1, 9, 0, 50))]
+        values = S.near_equal_large(seed, 9, draw(st.sampled_from(S.NEAR_EQUAL_BASES)))
     out = {"alg": draw(st.sampled_from(["snp", "snp", "rnp"])), "values": values, "numbins": 4, "pres": "list", "nseed": 0,
            "profile": "nested-" + profile}
     if case.get("out"):
